@@ -4,6 +4,7 @@ package main
 
 import (
 	"bytes"
+	"context"
 	crand "crypto/rand"
 	"crypto/sha256"
 	"encoding/hex"
@@ -466,6 +467,7 @@ type fakeConn struct {
 	cycle     bool
 	stop      *atomic.Bool
 	yield     bool
+	onWrite   func(p []byte, a net.Addr) // observes outgoing packets (the discover op answers binding requests)
 }
 
 func (c *fakeConn) ReadFrom(p []byte) (int, net.Addr, error) {
@@ -487,12 +489,17 @@ func (c *fakeConn) ReadFrom(p []byte) (int, net.Addr, error) {
 	n := copy(p, e.data)
 	return n, e.addr, nil
 }
-func (c *fakeConn) WriteTo(p []byte, _ net.Addr) (int, error) { return len(p), nil }
-func (c *fakeConn) Close() error                              { return nil }
-func (c *fakeConn) LocalAddr() net.Addr                       { return &net.UDPAddr{IP: net.IPv4(127, 0, 0, 1), Port: 1} }
-func (c *fakeConn) SetDeadline(time.Time) error               { return nil }
-func (c *fakeConn) SetReadDeadline(time.Time) error           { return nil }
-func (c *fakeConn) SetWriteDeadline(time.Time) error          { return nil }
+func (c *fakeConn) WriteTo(p []byte, a net.Addr) (int, error) {
+	if c.onWrite != nil {
+		c.onWrite(p, a)
+	}
+	return len(p), nil
+}
+func (c *fakeConn) Close() error                     { return nil }
+func (c *fakeConn) LocalAddr() net.Addr              { return &net.UDPAddr{IP: net.IPv4(127, 0, 0, 1), Port: 1} }
+func (c *fakeConn) SetDeadline(time.Time) error      { return nil }
+func (c *fakeConn) SetReadDeadline(time.Time) error  { return nil }
+func (c *fakeConn) SetWriteDeadline(time.Time) error { return nil }
 
 // address token: u:<iphex>:<port> (*net.UDPAddr), x:<iphex>:<port> (another net.Addr type), n:-:0 (nil)
 func parseAddrTok(s string) net.Addr {
@@ -535,6 +542,7 @@ func parseSpecs(s string) []inPkt {
 type stunView struct {
 	isMsg, decOK, bindOK bool
 	xor, mapped          string // "n" or <iphex>/<port>
+	txid                 []byte // msg.TransactionID when it decodes
 	response             bool   // harness's own reading of "is a STUN binding success response with a usable mapped address"
 }
 
@@ -551,6 +559,7 @@ func viewOf(pkt []byte) (v stunView) {
 		return v
 	}
 	v.decOK = true
+	v.txid = append([]byte{}, m.TransactionID[:]...)
 	v.bindOK = m.Type == stun.BindingSuccess
 	usable := func(ip net.IP, port int) bool {
 		return port >= 1 && port <= 65535 && (len(ip) == 4 || len(ip) == 16)
@@ -578,7 +587,7 @@ func (v stunView) String() string {
 		}
 		return "0"
 	}
-	return b(v.isMsg) + b(v.decOK) + b(v.bindOK) + "," + v.xor + "," + v.mapped
+	return b(v.isMsg) + b(v.decOK) + b(v.bindOK) + "," + v.xor + "," + v.mapped + "," + vh.Hex(v.txid)
 }
 
 func srcUsable(a net.Addr) bool {
@@ -686,6 +695,56 @@ func stunPackets(r *vh.RNG) ([]byte, string) {
 		return b, "stun-cookie-garbage"
 	default:
 		return build(stun.NewType(stun.MethodAllocate, stun.ClassSuccessResponse), &stun.XORMappedAddress{IP: ip4, Port: port}), "stun-allocate-success"
+	}
+}
+
+// punchStrayStun: STUN traffic that is NOT an answer to anything we asked: binding requests (what
+// any STUN-speaking peer or scanner sends), indications, error responses, truncated / flipped
+// messages, and now and then a genuine binding success of somebody else's transaction.
+func punchStrayStun(r *vh.RNG) ([]byte, string) {
+	var id [stun.TransactionIDSize]byte
+	copy(id[:], r.Bytes(12))
+	ip4 := net.IP(r.Bytes(4))
+	port := r.Range(1, 65535)
+	build := func(s ...stun.Setter) []byte {
+		m, err := stun.Build(append([]stun.Setter{stun.NewTransactionIDSetter(id)}, s...)...)
+		if err != nil {
+			return r.Bytes(20)
+		}
+		return append([]byte{}, m.Raw...)
+	}
+	switch r.Intn(8) {
+	case 0, 1:
+		return build(stun.BindingRequest), "stun-request"
+	case 2:
+		return build(stun.NewType(stun.MethodBinding, stun.ClassIndication)), "stun-indication"
+	case 3:
+		return build(stun.BindingError, &stun.XORMappedAddress{IP: ip4, Port: port}), "stun-error-with-addr"
+	case 4:
+		b := build(stun.BindingSuccess, &stun.XORMappedAddress{IP: ip4, Port: port})
+		return b[:r.Range(20, len(b)-1)], "stun-truncated"
+	case 5:
+		return build(stun.BindingSuccess), "stun-success-no-addr"
+	case 6:
+		return build(stun.BindingSuccess, &stun.XORMappedAddress{IP: ip4, Port: port}), "stun-resp-xor4"
+	default:
+		d, tag := stunPackets(r)
+		return d, tag
+	}
+}
+
+func punchGenDiscover(r *vh.RNG) string {
+	seed := r.U64() >> 1
+	m := fmt.Sprintf("%s/%d", vh.Hex(r.Bytes(4)), r.Range(1, 65535))
+	switch k := r.Intn(20); {
+	case k < 9:
+		return fmt.Sprintf("discover %d n", seed)
+	case k < 18:
+		return fmt.Sprintf("discover %d ok:%s", seed, m)
+	case k < 19:
+		return fmt.Sprintf("discover %d wrongtx:%s", seed, m)
+	default:
+		return fmt.Sprintf("discover %d err:%s", seed, m)
 	}
 }
 
@@ -837,8 +896,21 @@ func (c *punchConn) Gen(r *vh.RNG, n int, emit func(op string, tags ...string)) 
 				} else {
 					e("rm "+sx(fmt.Sprintf("zz%d", r.Intn(3))), "rm-unknown")
 				}
-			case k < 44:
+			case k < 42:
 				e("drain", "drain")
+			case k < 46: // stray STUN packets (mostly non-responses) reach the conn, then the STUN discovery runs on it
+				np := r.Range(1, 4)
+				specs := make([]string, 0, np)
+				tags := []string{"read-stray-stun"}
+				for i := 0; i < np; i++ {
+					d, tag := punchStrayStun(r)
+					specs = append(specs, vh.Hex(d)+"@"+genAddr(r))
+					tags = append(tags, tag)
+				}
+				e("read "+strings.Join(specs, ";"), tags...)
+				e(punchGenDiscover(r), "discover")
+			case k < 48:
+				e(punchGenDiscover(r), "discover")
 			default: // read
 				np := r.Pick([]int{0, 1, 1, 2, 3, 4, 6, 9})
 				specs := make([]string, 0, np+1)
@@ -945,6 +1017,8 @@ func (c *punchConn) Run(op string) vh.Result {
 		return c.runDrain()
 	case f[0] == "read" && len(f) == 2:
 		return c.runRead(f[1])
+	case f[0] == "discover" && len(f) == 3:
+		return c.runDiscover(f)
 	case f[0] == "conc" && len(f) == 6:
 		return punchRunConc(f)
 	}
@@ -1058,6 +1132,146 @@ func (c *punchConn) runRead(specS string) vh.Result {
 	}
 	res.Out = fmt.Sprintf("ret %d %s %s %s", k, vh.Hex(buf[:n]), tok, q)
 	res.NonTrivial = true
+	return res
+}
+
+type punchFixedResolver struct{ ip net.IP }
+
+func (r punchFixedResolver) LookupIPAddr(context.Context, string) ([]net.IPAddr, error) {
+	return []net.IPAddr{{IP: r.ip}}, nil
+}
+
+// discover <seed> <answer>: run the REAL DiscoverWithDemux — the consumer of the STUN event
+// channel — on this conn, with whatever earlier reads left on the channel. The fake wrapped conn
+// swallows the outgoing binding request; <answer> = n (the server stays silent: timeout) |
+// ok:<ip>/<port> (a binding success with that XOR-MAPPED-ADDRESS and the request's transaction id) |
+// wrongtx:<ip>/<port> (a binding success of another transaction) | err:<ip>/<port> (a binding error).
+// The answer is handed to a reader goroutine (ReadFrom) once the consumer has emptied the channel.
+func (c *punchConn) runDiscover(f []string) vh.Result {
+	seed, _ := strconv.ParseUint(f[1], 10, 64)
+	kind, mapped := f[2], ""
+	if i := strings.IndexByte(f[2], ':'); i >= 0 {
+		kind, mapped = f[2][:i], f[2][i+1:]
+	}
+	var mip net.IP
+	mport := 0
+	if mapped != "" {
+		g := strings.Split(mapped, "/")
+		mip = net.IP(vh.UnHex(g[0]))
+		mport, _ = strconv.Atoi(g[1])
+	}
+	timeout := 5 * time.Second
+	switch kind {
+	case "n":
+		timeout = 30 * time.Millisecond
+	case "wrongtx", "err":
+		timeout = 400 * time.Millisecond
+	}
+	server := &net.UDPAddr{IP: net.IPv4(192, 0, 2, 1).To4(), Port: 3478}
+	var sentTx [][]byte
+	var answer *inPkt
+	sent := make(chan struct{})
+	c.inner.queue, c.inner.next, c.inner.delivered = nil, 0, 0
+	c.inner.onWrite = func(p []byte, _ net.Addr) {
+		if !stun.IsMessage(p) {
+			return
+		}
+		tx := append([]byte{}, p[8:20]...)
+		sentTx = append(sentTx, tx)
+		if kind == "n" || answer != nil {
+			return
+		}
+		var id [stun.TransactionIDSize]byte
+		copy(id[:], tx)
+		typ := stun.BindingSuccess
+		switch kind {
+		case "wrongtx":
+			id[0] ^= 0x55
+		case "err":
+			typ = stun.BindingError
+		}
+		m, err := stun.Build(stun.NewTransactionIDSetter(id), typ, &stun.XORMappedAddress{IP: mip, Port: mport})
+		if err != nil {
+			return
+		}
+		answer = &inPkt{data: vh.Exact(m.Raw), addr: server, tok: fmt.Sprintf("u:%s:%d", vh.Hex(server.IP), server.Port)}
+		c.inner.queue = []inPkt{*answer}
+		close(sent)
+	}
+	defer func() { c.inner.onWrite = nil }()
+	_, sch := realm.VerifC20Chans(c.conn)
+	var done atomic.Bool
+	var wg sync.WaitGroup
+	wg.Add(1)
+	go func() { // the conn's reader: delivers the answer once the consumer has caught up
+		defer wg.Done()
+		for !done.Load() {
+			select {
+			case <-sent:
+				if len(sch) == 0 {
+					func() {
+						defer func() { _ = recover() }()
+						_, _, _ = c.conn.ReadFrom(make([]byte, 2048))
+					}()
+					return
+				}
+			default:
+			}
+			time.Sleep(100 * time.Microsecond)
+		}
+	}()
+	var addrs []netip.AddrPort
+	var err error
+	pmsg := ""
+	withDetRand(seed, func() {
+		_, pmsg = vh.GuardMsg(func() string {
+			ctx, cancel := context.WithTimeout(context.Background(), timeout)
+			defer cancel()
+			addrs, err = realm.DiscoverWithDemux(ctx, c.conn, realm.STUNConfig{
+				Servers: []string{"192.0.2.1:3478"}, Timeout: timeout, Resolver: punchFixedResolver{server.IP},
+			})
+			return ""
+		})
+	})
+	done.Store(true)
+	wg.Wait()
+	var res vh.Result
+	tx := []byte(nil)
+	if len(sentTx) > 0 {
+		tx = sentTx[0]
+	}
+	ans := "n"
+	if answer != nil {
+		ans = fmt.Sprintf("%s@%s@%s@-", vh.Hex(answer.data), answer.tok, viewOf(answer.data).String())
+	}
+	res.ModelOp = fmt.Sprintf("discover %s %s", vh.Hex(tx), ans)
+	if pmsg != "" {
+		res.Out = "panic"
+		res.Oracle = append(res.Oracle, "STUN event consumer panicked: DiscoverWithDemux: "+pmsg)
+		return res
+	}
+	ch, _ := realm.VerifC20Chans(c.conn)
+	q := fmt.Sprintf("q=%d,%d", len(ch), len(sch))
+	switch {
+	case err == nil:
+		ss := make([]string, len(addrs))
+		for i, a := range addrs {
+			ss[i] = showAddrPort(a)
+		}
+		res.Out = "addrs " + strings.Join(ss, ";") + " " + q
+		res.NonTrivial = true
+	case errors.Is(err, context.DeadlineExceeded):
+		res.Out = "failed " + q
+	default:
+		res.Out = "error " + q
+		res.Oracle = append(res.Oracle, "DiscoverWithDemux failed with an error of its own: "+err.Error())
+	}
+	if len(sentTx) != 1 {
+		res.Oracle = append(res.Oracle, fmt.Sprintf("harness: expected one binding request, saw %d", len(sentTx)))
+	}
+	if kind == "ok" && mport >= 1 && (err != nil || len(addrs) != 1 || int(addrs[0].Port()) != mport) {
+		res.Oracle = append(res.Oracle, fmt.Sprintf("the server answered the binding request with a mapped address, DiscoverWithDemux reported (%v, %v)", addrs, err))
+	}
 	return res
 }
 
